@@ -164,6 +164,8 @@ def random_script(rng, level, n, beyond=False, g=None):
             report()
     now += 1000
     report()
+    if level == "icpt" and rng.random() < 0.5:          # the RTCP writer refuses the reports of some ticks
+        steps = [dict(st, wfail=True) if st["a"] == "report" and rng.random() < 0.25 else st for st in steps]
     return wrap(level, rng.choice([0, -1000, -1000, -1, 12345]), rng.choice([0, 0, 1]), steps)
 
 
